@@ -101,22 +101,43 @@ func (lm *levelManager) iterators(opt *utils.Options) []utils.Iterator {
 
 // Get searches levels from L0 to Ln and returns the newest visible entry for key.
 func (lm *levelManager) Get(key []byte) (*kv.Entry, error) {
-	var (
-		entry *kv.Entry
-		err   error
-	)
-	// L0 layer query
-	if entry, err = lm.levels[0].Get(key); entry != nil {
-		return entry, err
-	}
-	// L1-7 layer query
-	for level := 1; level < lm.opt.MaxLevelNum; level++ {
-		ld := lm.levels[level]
-		if entry, err = ld.Get(key); entry != nil {
-			return entry, err
+	// A deeper level can hold a newer version than a shallower one (an L0->L0 compaction
+	// renumbers old data, value-log GC re-inserts old versions at the top), so every level
+	// is consulted and the newest version at or below the requested one wins. Levels are
+	// visited top down: among equal versions the shallowest wins, and an exact match ends
+	// the search.
+	want := kv.ParseTs(key)
+	var best *kv.Entry
+	for level := 0; level < lm.opt.MaxLevelNum; level++ {
+		entry, err := lm.levels[level].Get(key)
+		if err != nil && err != utils.ErrKeyNotFound {
+			if entry != nil {
+				entry.DecrRef()
+			}
+			if best != nil {
+				best.DecrRef()
+			}
+			return nil, err
+		}
+		if entry == nil {
+			continue
+		}
+		if best == nil || entry.Version > best.Version {
+			if best != nil {
+				best.DecrRef()
+			}
+			best = entry
+		} else {
+			entry.DecrRef()
+		}
+		if best.Version == want {
+			break
 		}
 	}
-	return entry, utils.ErrKeyNotFound
+	if best != nil {
+		return best, nil
+	}
+	return nil, utils.ErrKeyNotFound
 }
 
 func (lm *levelManager) loadManifest() (err error) {
